@@ -270,6 +270,35 @@ func hasRecv(n ast.Node) bool {
 	return found
 }
 
+// hasAtomic reports whether the node (function literals excluded) contains an atomic
+// operation: a call into sync/atomic or a method named like those of the atomic types
+// (Load, Store, Swap, CompareAndSwap, Add on atomic.Int64 etc.; sync.Map's share the names).
+// Lock-free code has no other point at which another goroutine could get ahead.
+func hasAtomic(n ast.Node) bool {
+	if n == nil || reflect.ValueOf(n).IsNil() {
+		return false
+	}
+	found := false
+	ast.Inspect(n, func(m ast.Node) bool {
+		switch c := m.(type) {
+		case *ast.FuncLit:
+			return false
+		case *ast.CallExpr:
+			if sel, ok := c.Fun.(*ast.SelectorExpr); ok {
+				if id, ok := sel.X.(*ast.Ident); ok && id.Name == "atomic" {
+					found = true
+				}
+				switch sel.Sel.Name {
+				case "Load", "Store", "Swap", "CompareAndSwap", "LoadOrStore", "LoadAndDelete", "CompareAndDelete":
+					found = true
+				}
+			}
+		}
+		return !found
+	})
+	return found
+}
+
 // rewriteList applies the statement-level rules to a statement list.
 func (rw *rewriter) rewriteList(list []ast.Stmt) []ast.Stmt {
 	var out []ast.Stmt
@@ -335,6 +364,14 @@ func (rw *rewriter) rewriteList(list []ast.Stmt) []ast.Stmt {
 			}
 			fl.Body.List = append([]ast.Stmt{enter, exit}, fl.Body.List...)
 			out = append(out, &ast.BlockStmt{List: []ast.Stmt{decl, s}})
+		case *ast.DeferStmt:
+			// defer mu.Unlock(): releasing the lock at the end of the function is as much a
+			// point where another goroutine may get ahead as a plain Unlock statement
+			if isUnlock(s.Call) {
+				rw.n++
+				s.Call = call("verifUnlock", s.Call.Fun)
+			}
+			out = append(out, s)
 		case *ast.ExprStmt, *ast.AssignStmt:
 			if es, ok := s.(*ast.ExprStmt); ok && isWait(es.X) {
 				// woken from a wait group, a condition variable, a child process or a timer:
@@ -352,9 +389,24 @@ func (rw *rewriter) rewriteList(list []ast.Stmt) []ast.Stmt {
 			if hasRecv(s) {
 				rw.n++
 				out = append(out, yieldStmt(), s, yieldStmt())
+			} else if hasAtomic(s) {
+				rw.n++
+				out = append(out, yieldStmt(), s)
 			} else {
 				out = append(out, s)
 			}
+		case *ast.IfStmt:
+			if hasAtomic(s.Init) || hasAtomic(s.Cond) {
+				rw.n++
+				out = append(out, yieldStmt())
+			}
+			out = append(out, s)
+		case *ast.ReturnStmt:
+			if hasAtomic(s) {
+				rw.n++
+				out = append(out, yieldStmt())
+			}
+			out = append(out, s)
 		default:
 			out = append(out, st)
 		}
@@ -648,6 +700,12 @@ func verifCmdRun(c *exec.Cmd) error {
 func verifProcWait(c *exec.Cmd) (*os.ProcessState, error) {
 	verifHk().ProcWait(c)
 	return nil, nil
+}
+
+// verifUnlock is what a deferred Unlock/RUnlock becomes: unlock, then yield.
+func verifUnlock(unlock func()) {
+	unlock()
+	verifHk().Yield()
 }
 
 // verifLock replaces Lock/RLock: a goroutine waiting for a mutex must be durably blocked
